@@ -333,3 +333,55 @@ theorem ptOther_ne (go : GroupOracle h F G) (sidR sidS : Bytes) (idx bit tA rO t
   abel
 
 end SlVerif.Endemic
+
+namespace SlVerif.Endemic
+open SlVerif
+
+variable (h : Query → Bytes)
+variable {F G : Type} [Field F] [AddCommGroup G] [Module F G]
+
+/-! ### the sender on arbitrary computed points (substituted message-1 entries) -/
+
+/-- the sender's point behind `rho_ro` when slot `ro` holds `p` and the other slot holds `po` -/
+def ptSend (sid : Bytes) (idx ro : Nat) (p po : Bytes) (tb : Nat) : Bytes :=
+  h (.ecMul K1 (h (.ecAdd K1 p (Hf h ro idx sid po))) tb)
+
+theorem sendInst_computed (go : GroupOracle h F G) (sid : Bytes) (idx : Nat) (q0 q1 : Query) (hq0 : IsGroupOp q0)
+    (hq1 : IsGroupOp q1) (tb0 tb1 : Nat) :
+    sendInst (m := Id) h sid idx (h q0, h q1) tb0 tb1 =
+      { err := false
+        mb := (h (.ecMulGen K1 tb0), h (.ecMulGen K1 tb1))
+        rho := (H2 h idx (ptSend h sid idx 0 (h q0) (h q1) tb0), H2 h idx (ptSend h sid idx 1 (h q1) (h q0) tb1)) } := by
+  rw [sendInst_id]
+  simp only [decode_computed h go q0 hq0, decode_computed h go q1 hq1]
+  rfl
+
+theorem recvProcInst_computed (go : GroupOracle h F G) (idx bit tA tb0 tb1 : Nat) :
+    recvProcInst (m := Id) h idx bit tA (h (.ecMulGen K1 tb0), h (.ecMulGen K1 tb1))
+      = (false, H2 h idx (ptRecv h tA (if bit = 0 then tb0 else tb1))) := by
+  rw [recvProcInst_id]
+  by_cases hb : bit = 0
+  · simp only [hb, if_true]
+    rw [decode_computed h go _ (by trivial)]; rfl
+  · simp only [hb, if_false]
+    rw [decode_computed h go _ (by trivial)]; rfl
+
+theorem dec_ptSend (go : GroupOracle h F G) (sid : Bytes) (idx ro : Nat) (p po : Bytes) (tb : Nat) :
+    go.dec (ptSend h sid idx ro p po tb) = (tb : F) • (go.dec p + go.dec (Hf h ro idx sid po)) := by
+  unfold ptSend; rw [go.mul, go.add]
+
+/-- the sender's point is the receiver's point only if the hash-to-curve value is ONE particular point -/
+theorem ptSend_ne (go : GroupOracle h F G) (sid : Bytes) (idx ro : Nat) (p po : Bytes) (tb tA tbc : Nat)
+    (ht : (tb : F) ≠ 0)
+    (hgap : go.dec (Hf h ro idx sid po) ≠ ((tb : F)⁻¹ * ((tA : F) * (tbc : F))) • go.gen - go.dec p) :
+    ptSend h sid idx ro p po tb ≠ ptRecv h tA tbc := by
+  intro e
+  have := congrArg go.dec e
+  rw [dec_ptSend h go, dec_ptRecv h go] at this
+  apply hgap
+  have h2 := congrArg (fun y => (tb : F)⁻¹ • y) this
+  simp only [smul_smul, inv_mul_cancel₀ ht, one_smul] at h2
+  rw [← h2]
+  abel
+
+end SlVerif.Endemic
